@@ -37,12 +37,35 @@ R5 (added) population of the recovery workflow: `_populate_workflow` loads every
 R6 (added) hygiene of the plumbing functions: every coroutine-producing call is awaited or scheduled;
    every name / `self.<attr>` they use is bound somewhere (whole-repo validated: 0 hits on today's tree).
 
+R7 (added, seeded change C16/3) a failure below the retry limit is retried: the guards of
+   `RollbackFailureManager._update_request` are tabulated over (max_retries in {None,1,2,3}) x (version in 1..5)
+   (the CFG walk of C17.R1, shared through `_util_D`); for every valuation with `max_retries is None` (no limit
+   configured: the constructor default) or `version < max_retries` the function can return normally, i.e. the
+   rollback is not refused.  C17.R1 states the converse (nothing is permitted beyond the limit); a guard
+   that refuses a permitted retry keeps C17 and breaks C16: the run aborts although no limit was exceeded.
+   Atoms outside the (version, max_retries) vocabulary are existential here (some valuation must let the
+   retry through), so that a stricter but satisfiable guard stays silent.
+R8 (added, seeded change C16/1) primitive tokens synthesised by a step are recoverable: `Token.is_available`
+   of the base class is exactly the `recoverable` flag (checked) - a plain `Token` has no data location the
+   rollback could probe.  Every construction of exactly `core.workflow.Token` (subclasses decide
+   availability themselves: FileToken by data locations, ListToken by its elements, JobToken never - a job is
+   always re-scheduled) that is (a) written in a method of a `Step` subclass (class table) or (b) reached from
+   the `token` argument of a `_persist_token` call site (whole-program call index; locals and the return
+   expressions of the resolved callees are followed, 2 levels) must bind `recoverable` to something that is
+   not statically false (omitted = the default of `Token.__init__`).  Otherwise the value - which sits in the
+   database - counts as lost: the provenance search walks past it, the producing step joins the recovery
+   workflow while its other outputs are still available, and e.g. `ScatterStep.restore` filters every element
+   (the recovered run gathers an empty list).  Exempt, with reason: null markers `Token(None)` (skip /
+   default placeholders: nothing was computed, 3 sites today); a flag forwarded from a parameter or computed
+   (`self._is_recoverable(job)`) is the caller's / the configuration's decision.
+
 Not armed (see DESIGN section 7): the sort of injected tokens by tag *string* in `_inject_tokens`.
 """
 
 from __future__ import annotations
 
 import ast
+import itertools
 
 from ..cfg import ALL, NORMAL
 from ..dataflow import defs_of, origins
@@ -51,6 +74,7 @@ from ..selftest import V
 from ._util_D import (
     FM,
     FM_FILE,
+    RETRY_ENVS,
     REC,
     REC_FILE,
     RFM,
@@ -62,20 +86,29 @@ from ._util_D import (
     check_defined,
     exc_ancestors,
     expr_facts,
+    effective_test,
     first_handler,
     funcs_mentioning,
+    guard_free_atoms,
+    guard_walk,
     has_fact,
     implies_empty,
     implied,
     is_awaited,
+    is_max,
+    is_version,
+    is_version_increment,
     lock_sites,
     membership_fact,
     mentions,
+    param_default,
     param_of_type,
+    param_truth_domain,
     path_facts,
     rcall,
     region,
     resolves_to,
+    retry_allowed,
     stage_calls,
     strip,
 )
@@ -96,7 +129,12 @@ META = {
         "table of the wrapper is evaluated for representative exception classes through the static class hierarchy "
         "and CFG must-pass-through of `recover`; (R3) dominance chain of the nine assembly stages of `_recover`, loop "
         "coverage of `restore`, one workflow object through all stages; (R4) overrides of `restore`, polarity of the "
-        "availability filters, boundary rules of `_inject_tokens`. Decides necessary structural conditions only."
+        "availability filters, boundary rules of `_inject_tokens`; (R7) finite-domain tabulation of the guards of "
+        "`_update_request` over (max_retries, version): every valuation below the limit, and every one without a limit, "
+        "can return normally (the converse of C17.R1); (R8) every construction of a plain `Token` in a Step subclass or "
+        "reached from the `token` argument of a `_persist_token` call site binds `recoverable` to something not statically "
+        "false, since `Token.is_available` is that flag (null markers `Token(None)` exempt; a flag forwarded from a parameter "
+        "is checked at the emitting call site). Decides necessary structural conditions only."
     ),
     "undecided": "equality of workflow outputs between recovered and failure-free runs (needs execution)",
     "assumptions": [
@@ -949,15 +987,203 @@ def r6(ctx):
     check_defined(ctx, "R6", [n for n in seen if n.startswith((FM, REC))], classes=[RFM])
 
 
+# --------------------------------------------------------------------------- R7
+
+
+def r7(ctx):
+    """A job that failed fewer times than the retry limit (or with no limit configured) is rolled back again:
+    for every permitted valuation of (max_retries, version) `_update_request` can return normally."""
+    p = ctx.prog
+    upd = p.func(f"{RFM}._update_request")
+    g = upd.cfg
+    tests = [n for n in g.nodes.values() if n.kind == "test" and n.ast is not None
+             and mentions(upd, n.ast, lambda x: is_version(upd, x) or is_max(upd, x))]
+    gnode = tests[0].ast if tests else upd.node
+    free: dict = {}
+    for n in tests:
+        guard_free_atoms(upd, effective_test(upd, n.ast), free)
+    keys = sorted(free, key=lambda k: unparse(free[k]))
+    if len(keys) > 6:
+        valuations = [{}]  # too many unknowns: such tests branch both ways
+    else:
+        doms = [sorted(param_truth_domain(p, upd, k[1])) if k[0] == "param" else [False, True] for k in keys]
+        valuations = [dict(zip(keys, bits)) for bits in itertools.product(*doms)]
+    refused = None
+    n_allowed = 0
+    for env0 in RETRY_ENVS:
+        if not retry_allowed(env0):
+            continue
+        n_allowed += 1
+        passes, why = False, None
+        for fv in valuations:
+            reach, crash = guard_walk(upd, dict(env0, free=fv))
+            if crash is not None:
+                why = why or f"the guard raises TypeError on `{crash}`"
+            elif g.exit in reach:
+                passes = True
+                break
+        if not passes and refused is None:
+            refused = (env0, why or "every path raises")
+    ctx.require(n_allowed > 0, "C16.R7: no permitted (max_retries, version) valuation in the table")
+    unlimited = refused is not None and refused[0]["max"] is None
+    ctx.ob("R7", "a failure below the retry limit (or without a configured limit) is rolled back again", refused is None, func=upd, node=gnode,
+           instance="guard:permits",
+           message=(f"_update_request refuses the rollback for max_retries={refused[0]['max']}, version={refused[0]['version']} ({refused[1]}): "
+                    + ("with no retry limit configured (max_retries=None, the default = unlimited) the first failure of any job aborts the run"
+                       if unlimited else "a job that failed fewer times than the limit is not re-executed and the run aborts")) if refused else "")
+    # the permitted branch is the counting one (the retry proceeds through the increment, it does not merely fall through)
+    incs = [i for n in g.nodes.values() if n.kind == "stmt" and is_version_increment(n.ast) for i in [n.id]]
+    ctx.ob("R7", "_update_request has a counting branch", bool(incs), func=upd, node=gnode, instance="guard:increment",
+           message="_update_request never increments `version`: no branch of the guard stands for a permitted retry")
+    # `max_retries` left out of the configuration means "no limit": the constructor default is None
+    init = p.func(f"{RFM}.__init__")
+    if "max_retries" in init.params:
+        d = param_default(init.node, "max_retries")
+        ok = d is None or (isinstance(d, ast.Constant) and (d.value is None or (isinstance(d.value, int) and not isinstance(d.value, bool) and d.value >= 1)))
+        ctx.ob("R7", "the default retry limit is None (unlimited) or a positive integer", ok, func=init, node=init.node, instance="limit:default",
+               message=f"RollbackFailureManager.__init__ defaults max_retries to `{unparse(d) if d is not None else ''}`: without configuration no failure is ever retried")
+
+
+# --------------------------------------------------------------------------- R8
+
+TOKEN = f"{CORE_WF}.Token"
+BASE_STEP = f"{STEP}.BaseStep"
+
+
+def _owner_cls(f):
+    h = f
+    while h is not None:
+        if h.cls is not None:
+            return h.cls
+        h = h.outer
+    return None
+
+
+def _token_constructions(p, f):
+    return [c for c in f.calls() if isinstance(c.func, (ast.Name, ast.Attribute)) and (unparse(c.func).rpartition(".")[2] == "Token")
+            and rcall(p, f, c, fanout=False) == [TOKEN]]
+
+
+def _collect_synth(p, f, e, depth, out, seen, via=None):
+    """Constructions of exactly `Token` the expression `e` of `f` may denote / contain: locals are replaced by
+    their assignments, calls of program functions by their return expressions (`depth` levels).
+    out: id(construction) -> (function, construction, [(caller, call) through which `function` was entered])."""
+    for o in origins(f, e) or [e]:
+        for x in [o, *ast.walk(o)]:
+            if not isinstance(x, ast.Call):
+                continue
+            qs = rcall(p, f, x)
+            if qs == [TOKEN]:
+                ent = out.setdefault(id(x), (f, x, []))
+                if via is not None and not any(v[1] is via[1] for v in ent[2]):
+                    ent[2].append(via)
+            elif depth > 0:
+                for q in qs:
+                    h = p.functions.get(q)
+                    if h is None or (q, id(x)) in seen or h.is_abstract:
+                        continue
+                    seen.add((q, id(x)))
+                    for r in h.body_nodes():
+                        if isinstance(r, ast.Return) and r.value is not None:
+                            _collect_synth(p, h, r.value, depth - 1, out, seen, via=(f, x))
+
+
+def r8(ctx):
+    """Primitive tokens a step synthesises are marked recoverable (their availability *is* that flag)."""
+    p = ctx.prog
+    tinit = p.func(f"{TOKEN}.__init__")
+    avail = p.func(f"{TOKEN}.is_available")
+    ctx.require("recoverable" in tinit.params, "C16.R8: Token.__init__ has no `recoverable` parameter")
+    # premise 1: the flag given to the constructor is what `recoverable` / `_recoverable` hold
+    stored = {t.attr for n in tinit.body_nodes() if isinstance(n, (ast.Assign, ast.AnnAssign)) and n.value is not None
+              and all(isinstance(strip(o), ast.Name) and strip(o).id == "recoverable" for o in origins(tinit, n.value))
+              for t in (n.targets if isinstance(n, ast.Assign) else [n.target])
+              if isinstance(t, ast.Attribute) and isinstance(t.value, ast.Name) and t.value.id == tinit.params[0]}
+    ctx.ob("R8", "Token.__init__ stores its `recoverable` argument", bool(stored), func=tinit, node=tinit.node, instance="premise:stored",
+           message="Token.__init__ no longer stores the `recoverable` argument: every primitive token looks lost (or available) to the rollback")
+    # premise 2: availability of a primitive token is that flag
+    rets = [n for n in avail.body_nodes() if isinstance(n, ast.Return)]
+    selfp = avail.params[0] if avail.params else "self"
+
+    def is_flag(e):
+        e = strip(e)
+        return isinstance(e, ast.Attribute) and isinstance(e.value, ast.Name) and e.value.id == selfp and (e.attr in stored or e.attr == "recoverable")
+
+    flag_is_avail = bool(rets) and all(r.value is not None and all(is_flag(o) for o in origins(avail, r.value)) for r in rets)
+    ctx.ob("R8", "Token.is_available is the recoverable flag", flag_is_avail or not stored, func=avail, node=avail.node, instance="premise:is_available",
+           message="Token.is_available no longer returns the `recoverable` flag: the rollback's notion of a lost primitive token (and of a lost job token, "
+           "which inherits it) changed - `_inject_tokens` / `restore` partition the tokens by this answer")
+    default = param_default(tinit.node, "recoverable")
+    # emission sites (class table + whole-program call index)
+    pt_defs = p.overrides(BASE_STEP, "_persist_token")
+    ctx.require(bool(pt_defs), "C16.R8: BaseStep._persist_token not found")
+    sites: dict[int, tuple] = {}
+    persist = callers_of(p, [d.qualname for d in pt_defs])
+    ctx.require(len(persist) >= 10, f"C16.R8: only {len(persist)} call sites of _persist_token found")
+    seen: set = set()
+    for f, c in persist:
+        b = bind_args(pt_defs[0].node, c) or {}
+        e = b.get("token")
+        if e is not None:
+            _collect_synth(p, f, e, 2, sites, seen)
+    for f in funcs_mentioning(p, "Token("):
+        oc = _owner_cls(f)
+        if oc is not None and p.is_subclass(oc.qualname, STEP_CLS):
+            for c in _token_constructions(p, f):
+                sites.setdefault(id(c), (f, c, []))
+    ctx.require(bool(sites), "C16.R8: no construction of a primitive Token found in the steps")
+    ordinal: dict[str, list] = {}
+    for f, c, _v in sites.values():
+        ordinal.setdefault(f.qualname, []).append(c)
+    for f, c, vias in sorted(sites.values(), key=lambda fc: (fc[0].qualname, fc[1].lineno, fc[1].col_offset)):
+        k = sorted(ordinal[f.qualname], key=lambda x: (x.lineno, x.col_offset)).index(c)
+        b = bind_args(tinit.node, c)
+        what = f"{f.qualname}: the primitive token #{k + 1} it builds is recoverable"
+        if b is None:
+            ctx.ob("R8", what + " (arguments forwarded with * / **: the caller decides)", True, func=f, node=c, trivial=True)
+            continue
+        val = b.get("value")
+        flag = b.get("recoverable", default)
+        flags = [strip(o) for o in origins(f, flag)] if flag is not None else []
+        static_false = flag is None or any(isinstance(o, ast.Constant) and not o.value for o in flags)
+        null_marker = val is not None and all(isinstance(strip(o), ast.Constant) and strip(o).value is None for o in origins(f, val))
+        if static_false and null_marker:
+            ctx.ob("R8", what + " (exempt: `Token(None)` null marker - skip / default placeholder, nothing was computed)", True, func=f, node=c, trivial=True)
+            ctx.observe(f"C16.R8: {f.qualname} builds the null marker `{unparse(c)[:60]}` without recoverable=True (exempt)")
+            continue
+        ctx.ob("R8", what, not static_false, func=f, node=c, instance=f"synth:{k + 1}",
+               message=f"{f.qualname} builds `{unparse(c)[:90]}` with recoverable "
+               + ("omitted (default " + (unparse(default) if default is not None else "missing") + ")" if "recoverable" not in b else f"= `{unparse(flag)}`")
+               + ": a primitive token has no data location, `Token.is_available` is this flag, so after a failure the rollback takes the value for lost "
+               "although it is in the database; the producing step is re-run while its other outputs are still available "
+               "(ScatterStep.restore then filters every element: the recovered run gathers an empty list)")
+        # the flag is a parameter of the builder: the emitting caller decides - it must not rely on a false default
+        pnames = {o.id for o in flags if isinstance(o, ast.Name) and o.id in f.params and all(d.kind == "param" for d in defs_of(f, o.id))}
+        if not static_false and flags and len(pnames) == 1 and all(isinstance(o, ast.Name) and o.id in pnames for o in flags):
+            pn = next(iter(pnames))
+            for g_, x in vias:
+                b2 = bind_args(f.node, x, bound=f.cls is not None)
+                if b2 is None:
+                    continue
+                e2 = b2.get(pn, param_default(f.node, pn))
+                f2 = [strip(o) for o in origins(g_, e2)] if e2 is not None else []
+                bad = e2 is None or any(isinstance(o, ast.Constant) and not o.value for o in f2)
+                ctx.ob("R8", f"{g_.qualname}: the token it obtains from {f.name}() is built recoverable", not bad, func=g_, node=x, instance=f"synth-via:{f.name}",
+                       message=f"{g_.qualname} emits the token built by `{unparse(x)[:80]}` with `{pn}` "
+                       + (f"= `{unparse(e2)}`" if pn in b2 and e2 is not None else f"left at its default `{unparse(e2) if e2 is not None else None}`")
+                       + f": {f.name} builds primitive tokens with that flag, so the emitted value counts as lost after a failure although it is in the database")
+
+
 def _blocked(ctx, rule, what, func):
     ctx.ob(rule, what + " (not evaluated: the construct is missing, see the finding of this rule)", True, func=func, node=func.node, trivial=True)
 
 
-RULES = [("R1", r1), ("R2", r2), ("R3", r3), ("R4", r4), ("R5", r5), ("R6", r6)]
-FLOORS = {"R1": 13, "R2": 16, "R3": 24, "R4": 15, "R5": 3, "R6": 20}
+RULES = [("R1", r1), ("R2", r2), ("R3", r3), ("R4", r4), ("R5", r5), ("R6", r6), ("R7", r7), ("R8", r8)]
+FLOORS = {"R1": 13, "R2": 16, "R3": 24, "R4": 15, "R5": 3, "R6": 20, "R7": 3, "R8": 9}
 
 _W = f"{DECORATOR}.<locals>.wrapper"
 _REC = f"{RFM}._recover"
+_UPD = f"{RFM}._update_request"
 
 _ON_TOKENS = ("{port.name: [mapper.token_instances[token_id] for token_id in mapper.port_tokens[port.name] if not mapper.token_availability[token_id]] "
               "for port in step.get_output_ports().values() if port.name in mapper.port_tokens.keys()}")
@@ -1017,7 +1243,67 @@ VARIANTS = [
     V("job ports and data ports swapped", FM_FILE, f"{FM}._populate_workflow", "InterWorkflowJobPort if isinstance(port, JobPort) else InterWorkflowPort", "InterWorkflowPort if isinstance(port, JobPort) else InterWorkflowJobPort", "R5"),
     V("failed step not loaded", FM_FILE, f"{FM}._populate_workflow", "    await workflow_builder.load_step(failed_step.persistent_id)\n", "", "R5"),
     V("only the first selected step is loaded", FM_FILE, f"{FM}._populate_workflow", "for step_id in step_ids))", "for step_id in list(step_ids)[:1]))", "R5"),
+    # ---- R7 (seeded change C16/3): a permitted retry must not be refused
+    V("unset retry limit treated as limit 0 (truthiness test)", FM_FILE, _UPD, "self.max_retries is None or retry_request.version < self.max_retries",
+      "self.max_retries and retry_request.version < self.max_retries", "R7", control=True),
+    V("retry only when a limit is configured", FM_FILE, _UPD, "self.max_retries is None or retry_request.version < self.max_retries",
+      "self.max_retries is not None and retry_request.version < self.max_retries", "R7"),
+    V("unlimited case dropped from the guard", FM_FILE, _UPD, "if self.max_retries is None or retry_request.version < self.max_retries:",
+      "if retry_request.version < self.max_retries:", "R7"),
+    V("last permitted retry refused (off by one)", FM_FILE, _UPD, "retry_request.version < self.max_retries", "retry_request.version + 1 < self.max_retries", "R7"),
+    V("inverted early raise also hits the unlimited case", FM_FILE, _UPD,
+      "    if self.max_retries is None or retry_request.version < self.max_retries:\n        retry_request.version += 1",
+      "    if self.max_retries is None or retry_request.version >= self.max_retries:\n        raise FailureHandlingException('exhausted')\n    if True:\n        retry_request.version += 1", "R7"),
+    V("default retry limit 0", FM_FILE, f"{RFM}.__init__", "max_retries: int | None=None", "max_retries: int | None=0", "R7"),
+    # ---- R8 (seeded change C16/1): synthesised primitive tokens are recoverable
+    V("scatter size token no longer marked recoverable", STEP_FILE, f"{STEP}.ScatterStep._scatter", "Token(len(token.value), tag=token.tag, recoverable=True)",
+      "Token(len(token.value), tag=token.tag)", "R8", control=True),
+    V("forced gather size token not recoverable", STEP_FILE, f"{STEP}.GatherStep.run", "Token(value=len(self.token_map[key]), tag=key, recoverable=True)",
+      "Token(value=len(self.token_map[key]), tag=key)", "R8"),
+    V("connector token explicitly not recoverable", STEP_FILE, f"{STEP}.DeployStep.run", "Token(value=self.deployment_config.name, recoverable=True), port=self.get_output_port(), input_token_ids=[]",
+      "Token(value=self.deployment_config.name, recoverable=False), port=self.get_output_port(), input_token_ids=[]", "R8"),
+    V("size token flag through a false local", STEP_FILE, f"{STEP}.ScatterStep._scatter",
+      "        size_port = self.get_size_port()\n        size_port.put(await self._persist_token(token=Token(len(token.value), tag=token.tag, recoverable=True)",
+      "        size_port = self.get_size_port()\n        keep = False\n        size_port.put(await self._persist_token(token=Token(len(token.value), tag=token.tag, recoverable=keep)", "R8"),
+    V("transformer result token not recoverable", TRANSF_FILE, "streamflow.cwl.transformer.CartesianProductSizeTransformer.transform",
+      "Token(value, tag=tag, recoverable=True)", "Token(value, tag=tag)", "R8"),
+    V("input injector relies on build_token's false default", "streamflow/cwl/step.py", "streamflow.cwl.step.CWLInputInjectorStep.process_input",
+      "streamflow_context=self.workflow.context, recoverable=True)", "streamflow_context=self.workflow.context)", "R8"),
+    V("new step emits a counter token without the flag", STEP_FILE, None, None, None, "R8", append="""
+      class _CountStep(BaseStep):
+          async def run(self) -> None:
+              token = await self.get_input_port().get(self.name)
+              out = self.get_output_port()
+              out.put(await self._persist_token(token=Token(len(token.value), tag=token.tag), port=out, input_token_ids=get_entity_ids([token])))
+              await self.terminate(Status.COMPLETED)
+      """),
+    V("Token.is_available ignores the flag", "streamflow/core/workflow.py", f"{TOKEN}.is_available", "return self._recoverable", "return True", "R8"),
     # ---- benign
+    V("guard through a boolean temporary", FM_FILE, _UPD, "    if self.max_retries is None or retry_request.version < self.max_retries:",
+      "    allowed = self.max_retries is None or retry_request.version < self.max_retries\n    if allowed:", None),
+    V("limit through a temporary, operands swapped", FM_FILE, _UPD, "    if self.max_retries is None or retry_request.version < self.max_retries:",
+      "    limit = self.max_retries\n    if limit is None or limit > retry_request.version:", None),
+    V("inverted guard with early raise", FM_FILE, _UPD,
+      "    if self.max_retries is None or retry_request.version < self.max_retries:\n        retry_request.version += 1",
+      "    if self.max_retries is not None and retry_request.version >= self.max_retries:\n        raise FailureHandlingException('exhausted')\n    if True:\n        retry_request.version += 1", None),
+    V("falsy-or formulation of the unlimited case", FM_FILE, _UPD, "self.max_retries is None or retry_request.version < self.max_retries",
+      "not self.max_retries or retry_request.version < self.max_retries", None),
+    V("stricter but satisfiable extra conjunct", FM_FILE, _UPD, "    if self.max_retries is None or retry_request.version < self.max_retries:",
+      "    if job_name in self._retry_requests and (self.max_retries is None or retry_request.version < self.max_retries):", None),
+    V("size token through a local and a true flag local", STEP_FILE, f"{STEP}.ScatterStep._scatter",
+      "        size_port.put(await self._persist_token(token=Token(len(token.value), tag=token.tag, recoverable=True)",
+      "        keep = True\n        size_token = Token(len(token.value), tag=token.tag, recoverable=keep)\n        size_port.put(await self._persist_token(token=size_token", None),
+    V("size token with positional arguments", STEP_FILE, f"{STEP}.ScatterStep._scatter", "Token(len(token.value), tag=token.tag, recoverable=True)",
+      "Token(len(token.value), token.tag, True)", None),
+    V("new step emits a null marker and a retagged input", STEP_FILE, None, None, None, None, append="""
+      class _SkipStep(BaseStep):
+          async def run(self) -> None:
+              token = await self.get_input_port().get(self.name)
+              out = self.get_output_port()
+              out.put(await self._persist_token(token=Token(value=None, tag=token.tag), port=out, input_token_ids=get_entity_ids([token])))
+              out.put(await self._persist_token(token=token.retag(token.tag + '.0'), port=out, input_token_ids=get_entity_ids([token])))
+              await self.terminate(Status.COMPLETED)
+      """),
     V("restore through gather", FM_FILE, _REC,
       "    for step in new_workflow.steps.values():\n        await step.restore(on_tokens=" + _ON_TOKENS + ")",
       "    await asyncio.gather(*(asyncio.create_task(step.restore(on_tokens=" + _ON_TOKENS + ")) for step in new_workflow.steps.values()))", None),
